@@ -64,7 +64,16 @@ def run(ctx):
     ctx.check(not statics, "R05.1", SS, "no-static-members", "smart_stream has static members %s" % statics, "%s:%d" % (cls["file"], cls["line"]))
     # move constructor completeness
     mc = [f for f in fns if f.cls == SS and f.flags.get("move_ctor")]
-    ctx.need("R05.1", "smart_stream move constructor", len(mc), 1)
+    dmc = (cls.get("special") or {}).get("move_ctor") or {}
+    if not mc and dmc.get("defaulted") and not dmc.get("deleted"):
+        # `= default`: member-wise move; for unique_ptr members (checked above) that is exactly move(src.member) for every member, the source is left null
+        allp = all(fl["type"].replace(" ", "").startswith("std::unique_ptr<") for fl in members.values())
+        ctx.check(allp, "R05.1", SS, "move-transfers:defaulted", "the defaulted move constructor copies a member that is not a unique_ptr: source and target both hold it", "%s:%d" % (cls["file"], cls["line"]),
+                  why_ok="defaulted move constructor over unique_ptr members %s" % sorted(members))
+        mc = []
+        ctx.need("R05.1", "smart_stream move constructor", 1, 1)
+    else:
+        ctx.need("R05.1", "smart_stream move constructor", len(mc), 1)
     for f in mc:
         src = f.params[0]["name"]
         inits = {short(e["field"]): e["expr"] for _, _, e in f.all_elems() if e["kind"] == "init" and e.get("field")}
